@@ -1,10 +1,12 @@
 import VerifModel.Base.Proto
 import VerifModel.Model.Diagram
+import VerifModel.Model.DiagramMore
 import VerifModel.Spec.Diagram
 /-
   Driver ops for C16:
     diag <name> <opts> <in0> [<in1> …]     the series the modelled diagram draws
         opts   k=v;k=v or -     m (metric / field)  b (bin type)  r  q  ax (vectors)  simple=1
+                                tm, ld (initialisation times, lead times: timeseries, meteo)
         in<k>  key=v1|v2|…;key=…          valid-case vectors per slice, as fetched by Data.get_scores
       reply  <axes>:<kind>:<label>:<x>:<y>[:<w>];…     or UNMODELLED
     bin <edges> <x> <y>                    util.bin  ->  xx:yy:counts
@@ -24,6 +26,8 @@ structure Opts where
   q : Option Vec := none
   ax : Option Vec := none
   simple : Bool := false
+  tm : Vec := []          -- initialisation times (unixtime) and lead times (hours): timeseries, meteo
+  ld : Vec := []
 
 abbrev Inp := List (String × List Vec)
 
@@ -39,6 +43,8 @@ def parseOpts (s : String) : Option Opts :=
       else if k == "q" then (parseVec? v).map fun x => { o with q := some x }
       else if k == "ax" then (parseVec? v).map fun x => { o with ax := some x }
       else if k == "simple" then some { o with simple := true }
+      else if k == "tm" then (parseVec? v).map fun x => { o with tm := x }
+      else if k == "ld" then (parseVec? v).map fun x => { o with ld := x }
       else some o
     | _ => none) {}
 
@@ -174,6 +180,48 @@ def figure (T : Tr) (name : String) (o : Opts) (ins : List Inp) : Option (List S
   | "standard" =>
     some (perInput (fun k i =>
       [line 0 (inName k) (o.ax.getD []) (standardSeries T o.m (zipSl (getS i "obs") (getS i "fcst")))]) ins)
+  | "droc" | "droc0" =>
+    let fts := if name == "droc0" then [t] else drocDefaultThresholds t
+    (ins.mapM fun i => drocSeries T bAbove t fts (get1 i "obs") (get1 i "fcst")).map fun cs =>
+      perInput (fun k (s : Vec × Vec) => [line 0 (inName k) s.1 s.2]) cs
+  | "against" =>
+    -- in<k> carries fa (its forecasts where every input has one) and obs, fcst (the cases with an observation)
+    some ((againstPairs F).zipIdx.flatMap fun pr =>
+      let i0 := ins.getD pr.1.1 []
+      let i1 := ins.getD pr.1.2 []
+      againstPair T (againstAxes F pr.2) (get1 i0 "fa") (get1 i1 "fa") (get1 i0 "obs") (get1 i0 "fcst") (get1 i1 "fcst"))
+  | "change" =>
+    -- obs, fcst: one slice per initialisation time
+    some (perInput (fun k i =>
+      let s := changeSeries (o.r.getD []) (changeCases (getS i "obs") (getS i "fcst"))
+      [line 0 (inName k) s.1 s.2]) ins)
+  | "igncontrib" =>
+    let edges := ignEdges (get1 (ins.headD []) "obs").length
+    let rs := ins.map fun i => ignSeries T edges (relCases bAbove t (get1 i "obs") (get1 i "p"))
+    some (perInput (fun k r => [line 0 (inName k) (r.map (·.1)) (r.map (·.2.1))]) rs ++
+      rs.map fun r => line 1 "_" (r.map (·.1)) (r.map fun b => XR.ofNat b.2.2))
+  | "economicvalue" =>
+    some (perInput (fun k i =>
+      [line 0 (inName k) costLossRatios (economicValueSeries (relCases bAbove t (get1 i "obs") (get1 i "p")))]) ins)
+  | "murphy" =>
+    some (perInput (fun k i =>
+      [line 0 (inName k) murphyThresholds (murphySeries (relCases bAbove t (get1 i "obs") (get1 i "p")))]) ins)
+  | "timeseries" =>
+    -- in<k> carries <field><d> = one slice per lead time (values over the locations) for every run d;
+    -- fields: obs, fcst, e<m>_ (member m), q<j>_ (j-th level of -q); nmem = number of members
+    let runs := fun (i : Inp) (key : String) => (List.range o.tm.length).map fun d => getS i s!"{key}{d}"
+    let qs := o.q.getD []
+    some (timeseriesFigure o.tm o.ld (runs (ins.headD []) "obs") (qs.map pct)
+      (ins.map fun i =>
+        { fcst := runs i "fcst",
+          members := (List.range (get1 i "nmem").length).map fun m => runs i s!"e{m}_",
+          quants := qs.zipIdx.map fun q => runs i s!"q{q.2}_" }))
+  | "meteo" =>
+    -- in0 carries <field><l> = one slice per location (values over the runs) for every lead time l
+    let i := ins.headD []
+    let leads := fun (key : String) => (List.range o.ld.length).map fun l => getS i s!"{key}{l}"
+    some (meteoFigure (meteoX (o.tm.headD .nan) o.ld) (leads "obs") (leads "fcst")
+      ((o.q.getD []).zipIdx.map fun q => (q.1, pct q.1, leads s!"q{q.2}_")))
   | _ => none
 
 def showNats (l : List Nat) : String := if l.isEmpty then "-" else ",".intercalate (l.map toString)
@@ -196,6 +244,8 @@ def handle1 (args : List String) : Option String :=
   | "diag" :: name :: opts :: ins => do
       let o ← parseOpts opts
       let ins ← ins.mapM parseInp
+      -- `verif.util.error` exits: Meteo with more than one input, Against with fewer than two
+      if (name == "meteo" && ins.length != 1) || (name == "against" && ins.length < 2) then some "ERR" else
       match figure floatTr name o ins with
       | some f => some (showFig f)
       | none => some "UNMODELLED"
